@@ -21,6 +21,22 @@ def _names(t, ExtractError, where):
     raise ExtractError(f"{where}: unrecognised except clause {ast.unparse(t)!r}")
 
 
+def collect_file_catches():
+    """exception classes that pytask_collect_file_protocol turns into a failed collection report"""
+    import extract as X
+    E = X.ExtractError
+    fn = X._func(X._parse("collect.py"), "pytask_collect_file_protocol")
+    tries = [n for n in fn.body if isinstance(n, ast.Try)]
+    if len(tries) != 1 or len(tries[0].handlers) != 1:
+        raise E("pytask_collect_file_protocol: expected one try with one handler")
+    if "pytask_collect_file" not in ast.unparse(tries[0].body):
+        raise E("pytask_collect_file_protocol: try body does not call pytask_collect_file")
+    h = tries[0].handlers[0]
+    if "CollectionReport.from_exception" not in ast.unparse(h) or "CollectionOutcome.FAIL" not in ast.unparse(h):
+        raise E("pytask_collect_file_protocol: handler does not build a FAIL report")
+    return _names(h.type, E, "pytask_collect_file_protocol handler")
+
+
 def section():
     import extract as X
     E = X.ExtractError
@@ -88,5 +104,7 @@ def section():
     L.append("def collectLogRaises : String := \"CollectionError\"")
     L.append("/-- exception classes that `pytask_execute_task_protocol` turns into a report. -/")
     L.append(f"def protocolCatches : List String := {X.lean_list(caught, X.lean_str)}")
+    L.append("/-- exception classes that `pytask_collect_file_protocol` turns into a failed collection report. -/")
+    L.append(f"def collectFileCatches : List String := {X.lean_list(collect_file_catches(), X.lean_str)}")
     L.append("")
     return L
